@@ -12,10 +12,12 @@ DelimSets   == {<<61>>, <<58, 61>>, <<32>>, <<32, 9>>, <<32, 61>>, <<9, 32, 61>>
 CommentSets == {<<35>>, <<59>>, <<35, 59>>}
 ParsFor(opt) ==
   IF opt = "python"
-  THEN {[delim |-> d, comment |-> c, python |-> TRUE, join |-> FALSE] : d \in {<<61>>, <<58, 61>>, <<32>>}, c \in CommentSets}
+  THEN {[delim |-> d, comment |-> c, python |-> TRUE, join |-> FALSE, jpool |-> FALSE] : d \in {<<61>>, <<58, 61>>, <<32>>}, c \in CommentSets}
   ELSE IF opt = "join"
-  THEN {[delim |-> d, comment |-> c, python |-> FALSE, join |-> TRUE] : d \in {<<61>>, <<58, 61>>}, c \in CommentSets}
-  ELSE {[delim |-> d, comment |-> c, python |-> FALSE, join |-> FALSE] : d \in DelimSets, c \in CommentSets}
+  THEN {[delim |-> d, comment |-> c, python |-> FALSE, join |-> TRUE, jpool |-> TRUE] : d \in {<<61>>, <<58, 61>>}, c \in CommentSets}
+  ELSE IF opt = "nojoin"          \* the same files read WITHOUT the option: the first definition wins
+  THEN {[delim |-> d, comment |-> c, python |-> FALSE, join |-> FALSE, jpool |-> TRUE] : d \in {<<61>>, <<58, 61>>}, c \in CommentSets}
+  ELSE {[delim |-> d, comment |-> c, python |-> FALSE, join |-> FALSE, jpool |-> FALSE] : d \in DelimSets, c \in CommentSets}
 
 \* ---- separators by delimiter class ----
 Seps(D) ==
@@ -62,7 +64,17 @@ Bads(p) == {BadL(<<LBR, 83>>, "ECONF_MISSING_BRACKET"), BadL(<<LBR, 83, RBR, 32,
             BadL(<<LBR, RBR>>, "ECONF_EMPTY_SECTION_NAME"), BadL(sp \o <<LBR, 83, 32>>, "ECONF_MISSING_BRACKET")}
            \cup (IF Class(p.delim) = "NONBLANK" THEN {BadL(a \o sp \o v, "ECONF_MISSING_DELIMITER")} ELSE {})
 
-Pool(p, withBad) == Blanks \cup Comments(p) \cup Headers
+\* JOIN_SAME_ENTRIES grammar (DESIGN.md 5.2): keys defined several times, unquoted values (possibly
+\* empty), continuation lines, re-opened sections
+JoinPool(p) ==
+  LET s1 == Sep1(p.delim) IN
+  {BlankL(E), HeaderL(E, <<83>>, E), HeaderL(E, <<84>>, E)}
+  \cup {EntryL(E, k, s, x, FALSE, E, E, E) : k \in {a, b}, s \in {s1}, x \in {v, w, E}}
+  \cup {EntryL(sp, a, sp \o s1 \o sp, v \o sp \o w, FALSE, sp, E, E)}
+  \cup {ContL(sp, w, E, E, E), ContL(tb \o sp, v \o sp \o w, sp, E, E)}
+
+Pool(p, withBad) == IF p.jpool THEN JoinPool(p) ELSE
+           Blanks \cup Comments(p) \cup Headers
            \cup (IF Class(p.delim) = "NONE" THEN KeyOnlys ELSE Entries(p) \cup Conts(p))
            \cup (IF withBad THEN Bads(p) ELSE {})
 
